@@ -54,12 +54,19 @@ pub struct ScriptBody {
     /// an un-fused body: keeps delivering the scripted steps that follow an Err step
     pub continue_after_err: bool,
     remaining: usize,
+    /// bodies that know their length up front (a content-length header, `Full`, a file): when
+    /// set, `size_hint()` reports exactly the DATA bytes the script still holds
+    pub hint: Option<u64>,
 }
 
 impl ScriptBody {
     pub fn new(steps: Vec<BStep>) -> (Self, Arc<BodyStats>) {
         let stats = Arc::new(BodyStats::default());
         let remaining = steps.len();
+        let total: u64 = steps.iter().map(|s| if let BStep::Data(d) = s { d.len() as u64 } else { 0 }).sum();
+        let pend = steps.iter().filter(|s| matches!(s, BStep::Pending)).count() as u64;
+        // decided by the script's content, so that a replay of one case sees the same body
+        let hint = if (steps.len() as u64 * 7 + total * 13 + pend) % 3 == 0 { Some(total) } else { None };
         (
             ScriptBody {
                 steps: steps.into_iter(),
@@ -67,6 +74,7 @@ impl ScriptBody {
                 eager_end: false,
                 continue_after_err: false,
                 remaining,
+                hint,
             },
             stats,
         )
@@ -111,6 +119,9 @@ impl Body for ScriptBody {
                     }
                     BStep::Data(d) => {
                         self.stats.data_steps_delivered.fetch_add(1, Ordering::SeqCst);
+                        if let Some(h) = self.hint.as_mut() {
+                            *h -= d.len() as u64;
+                        }
                         Poll::Ready(Some(Ok(Frame::data(Bytes::from(d)))))
                     }
                     BStep::Trailers(t) => Poll::Ready(Some(Ok(Frame::trailers(t)))),
@@ -128,6 +139,13 @@ impl Body for ScriptBody {
 
     fn is_end_stream(&self) -> bool {
         self.eager_end && self.remaining == 0
+    }
+
+    fn size_hint(&self) -> http_body::SizeHint {
+        match self.hint {
+            Some(h) => http_body::SizeHint::with_exact(h),
+            None => http_body::SizeHint::default(),
+        }
     }
 }
 
@@ -149,16 +167,21 @@ pub struct ScriptSource<T> {
     steps: std::vec::IntoIter<SStep<T>>,
     pub stats: Arc<SourceStats>,
     ended: bool,
+    /// streams that know their length (`tokio_stream::iter`, `empty()`): exact `size_hint()`
+    items_left: Option<usize>,
 }
 
 impl<T> ScriptSource<T> {
     pub fn new(steps: Vec<SStep<T>>) -> (Self, Arc<SourceStats>) {
         let stats = Arc::new(SourceStats::default());
+        let items = steps.iter().filter(|s| !matches!(s, SStep::Pending)).count();
+        let items_left = if steps.len() % 3 == 0 { Some(items) } else { None };
         (
             ScriptSource {
                 steps: steps.into_iter(),
                 stats: stats.clone(),
                 ended: false,
+                items_left,
             },
             stats,
         )
@@ -184,9 +207,24 @@ impl<T: Unpin> tokio_stream::Stream for ScriptSource<T> {
             }
             Some(SStep::Item(t)) => {
                 self.stats.items_taken.fetch_add(1, Ordering::SeqCst);
+                if let Some(n) = self.items_left.as_mut() {
+                    *n -= 1;
+                }
                 Poll::Ready(Some(Ok(t)))
             }
-            Some(SStep::Err(c, m)) => Poll::Ready(Some(Err(Status::new(c, m)))),
+            Some(SStep::Err(c, m)) => {
+                if let Some(n) = self.items_left.as_mut() {
+                    *n -= 1;
+                }
+                Poll::Ready(Some(Err(Status::new(c, m))))
+            }
+        }
+    }
+    fn size_hint(&self) -> (usize, Option<usize>) {
+        match self.items_left {
+            Some(n) if !self.ended => (n, Some(n)),
+            Some(_) => (0, Some(0)),
+            None => (0, None),
         }
     }
 }
